@@ -134,13 +134,20 @@ Print Assumptions C17_fields_preserved.
 Print Assumptions C17_fields_nearest.
 Print Assumptions C17_nested_kept.
 
-(* 4. automatic names.  The name of the n-th unnamed analysis is "Analysis" followed by the decimal rendering of n;
-      that function is injective; the names given to the unnamed analyses of an attribute list, at all nesting
+(* 4. automatic names.  The name of the n-th unnamed analysis is a fixed prefix (the regenerated table entry
+      Hdl21Gen.C17Tables.auto_name_prefix, read off the live exporter - the property does not fix its spelling) followed by
+      the decimal rendering of n; that function is injective, whatever the prefix; the names given to the unnamed analyses of an attribute list, at all nesting
       depths, outer before inner, are exactly auto_name k, auto_name (k+1), ... — hence pairwise distinct, for any
       number of unnamed analyses at any nesting. *)
 Theorem C17_auto_name_injective a b : auto_name a = auto_name b -> a = b.
 Proof. exact (auto_name_inj a b). Qed.
 Print Assumptions C17_auto_name_injective.
+Theorem C17_auto_name_injective_any_prefix p a b : auto_name_of p a = auto_name_of p b -> a = b.
+Proof. exact (auto_name_of_inj p a b). Qed.
+Print Assumptions C17_auto_name_injective_any_prefix.
+Example C17_auto_name_any_prefix_nonvacuous :
+  auto_name_of "unnamed_analysis_" 7 = "unnamed_analysis_7" /\ auto_name_of "A1" 0 <> auto_name_of "A1" 10 /\ auto_name_of "" 3 = "3".
+Proof. vm_compute. repeat split. discriminate. Qed.
 
 Theorem C17_auto_names_distinct l k os ans cs : xattrs l k = Ok (os, ans, cs) ->
   (exists n, map2cat invented (ans_of l) ans = map auto_name (nseq k n)) /\
@@ -400,7 +407,8 @@ Example C17_ex_names :
 Proof. vm_compute. split; reflexivity. Qed.
 
 (* decimal rendering of the counter: the tenth and hundredth unnamed analyses *)
-Example C17_ex_render : auto_name 10 = "Analysis10" /\ auto_name 109 = "Analysis109" /\ auto_name 0 = "Analysis0".
+Example C17_ex_render : auto_name 10 = String.append auto_name_prefix "10" /\ auto_name 109 = String.append auto_name_prefix "109"
+  /\ auto_name 0 = String.append auto_name_prefix "0" /\ auto_name_of "Analysis" 10 = "Analysis10".
 Proof. vm_compute. repeat split. Qed.
 
 (* the specification is not trivially true: a dropped control, swapped sweep bounds, a wrong float, a repeated
